@@ -1384,6 +1384,10 @@ func (ls *LState) Insert(value LValue, index int) {
 	reg := ls.indexToReg(index)
 	top := ls.reg.Top()
 	if reg >= top {
+		// the positions the list did not have yet hold nil
+		for i := top; i < reg; i++ {
+			ls.reg.Set(i, LNil)
+		}
 		ls.reg.Set(reg, value)
 		return
 	}
@@ -1798,6 +1802,9 @@ func (ls *LState) ObjLen(v1 LValue) int {
 /* binary operations {{{ */
 
 func (ls *LState) Concat(values ...LValue) string {
+	if len(values) == 0 {
+		return ""
+	}
 	top := ls.reg.Top()
 	for _, value := range values {
 		ls.reg.Push(value)
